@@ -129,6 +129,8 @@ def _apply(head, form, op, versioning, markings):
                 kw["custom_properties"] = {"modified": op["_modified_text"]}
             else:
                 kw["modified"] = op["_modified_text"]
+        elif kind == "new_version" and op.get("modified_none"):
+            kw["modified"] = None        # "no modified time given", spelled out: the library's clock decides, as when the keyword is absent
         elif kind == "unmodifiable":
             if op.get("via") == "custom_properties" and form != "dict":
                 # the same attempt smuggled through the custom_properties= keyword: it must not win over the copied original
@@ -280,6 +282,8 @@ def _run(case, clock, versioning):
         may_refuse = False
         if kind == "new_version":
             expect_changes = op["changes"]
+            if op.get("modified_none"):
+                classes.append("new_version:modified=None")
         elif kind == "custom":
             expect_changes = dict(op.get("changes") or {}, **{op["name"]: op["value"]})
             # custom content without permission on an object that has none: refusal is the documented outcome, but the
@@ -560,6 +564,8 @@ def an_op(draw, typ, version, form, subject):
 
     if kind == "new_version":
         op["changes"] = changes()
+        if draw(st.integers(0, 11)) == 0:
+            op["modified_none"] = True
     elif kind == "set_modified":
         op["delta"] = draw(clock_delta)
         op["changes"] = changes(0)
